@@ -614,7 +614,7 @@ def units():
     # A-FUSE finds the names used by a method through get_read_variables / get_written_variables: the declared
     # sets (C08) are functions this property depends on
     from . import c08
-    us += c08.units()
+    us += c08.declared_side_units()      # what the interpreter really reads is C08's / C02's subject, not fusion's
     return us
 
 
